@@ -13,6 +13,25 @@ RULE = ("behaviours = all two-scene API call sequences of the stated depth over 
 def run(chk):
     tc.model_check(chk, chk.tier == "quick", parts=("main",) if chk.tier == "quick" else ("main", "refine", "extra"), small=chk.tier == "quick")
     tc.standard_plan(chk, "C04", "nt_C04", kinds_quick=("sort", "visual"))
+    # R2: an interleaved multi-scene run against the single-scene runs, related by TLC up to an id bijection
+    from checks import r2_common as r2
+    traces = []
+    for i in range(2 if chk.tier == "quick" else 40):
+        kind = ("sort", "visual", "batchsort", "batchvisual")[i % 4]
+        seed = chk.seed * 1000 + 300 + i
+        kw = dict(steps=200, shards=2, metric="iou" if i % 2 == 0 else "maha", max_idle=2, objects=3, spread=90, scenes="0,7",
+                  crafted=False, extra=["--no-lifecycle", "1"])
+        a = r2.record(chk, f"c04-all-{i}", kind, seed, **kw)
+        traces.append(a)
+        for sc in (0, 7):
+            kw2 = dict(kw); kw2["extra"] = kw["extra"] + ["--only-scene", str(sc)]
+            b = r2.record(chk, f"c04-only{sc}-{i}", kind, seed, **kw2)
+            ok, rej = r2.pairing(chk, f"c04-pair-{i}-{sc}", a, b, "renaming", scene=sc)
+            chk.cov["evaluations"] += 1
+            chk.cov["distinct_nontrivial"] += 1
+            if not ok:
+                chk.violation("c04:interleaving-changes-a-scene", {"engine": "pairing", "a": str(a), "b": str(b), "rejected": rej[:2000]})
+    r2.validate_all(chk, traces, "C04")
     chk.finish(RULE, exhaustive=True)
 
 
